@@ -37,6 +37,7 @@ let () =
      while true do
        let line = input_line ic in
        if line <> "" then begin
+         let t_case = Unix.gettimeofday () in
          let toks = Array.of_list (List.filter (fun s -> s <> "") (split ' ' line)) in
          let algo = int_of_string toks.(0) and rep = int_of_string toks.(1) and lcp = toks.(3) <> "0" in
          let mem_s = toks.(4) and depth = int_of_string toks.(5) and n0 = int_of_string toks.(6) in
@@ -103,7 +104,7 @@ let () =
                   ignore ids;
                   "ok", b2s ms, b2s canon, exact, lcp0)
            end in
-         Printf.printf "chk=%s sp=%s lcpok=%s model=%s mspec=%s canon=%s exact=%s lcp0=%s\n%!" chk sp lcpok model mspec canon exact lcp0
+         Printf.printf "chk=%s sp=%s lcpok=%s model=%s mspec=%s canon=%s exact=%s lcp0=%s t=%.2f\n%!" chk sp lcpok model mspec canon exact lcp0 (Unix.gettimeofday () -. t_case)
        end
      done
    with End_of_file -> ());
